@@ -13,7 +13,7 @@
 (*   label : [t, cards, label]                                             *)
 (*   best  : [t, hole, board, found, cards]   from_game_or_none            *)
 (***************************************************************************)
-EXTENDS Hands, Analysis, Values, TLC, Json, IOUtils
+EXTENDS Analysis, Values, Json, IOUtils
 
 Items == ndJsonDeserialize(IOEnv.ITEMS)
 
